@@ -69,7 +69,86 @@ MUTANTS = [
          old="return dg(descent) >= c2 * origin.dg(descent);", new="return dg(descent) <= c2 * origin.dg(descent);"),
     dict(property="C07", name="armijo-predicate-without-c1", rule="R-C07-4", file="src/solver/state.cpp",
          old="return m_fx <= origin.fx() + step_size * c1 * origin.dg(descent);", new="return m_fx <= origin.fx() + step_size * origin.dg(descent);"),
-]
+    # ---- C17
+    dict(property="C17", name="stop-set-outside-lock", rule="R-C17-1", file="src/core/parallel.cpp",
+         old="""    {
+        const std::scoped_lock lock(m_queue.m_mutex);
+        m_queue.m_stop = true;
+    }""", new="""    m_queue.m_stop = true;"""),
+    dict(property="C17", name="map-drops-notify", rule="R-C17-2", file="include/nano/core/parallel.h", tu="src/core/parallel.cpp",
+         old="""                    section.emplace_back(m_queue.enqueue_no_lock([op, index](const size_t tnum) { op(index, tnum); }));
+                }
+            }
+            m_queue.m_condition.notify_all();
+""", new="""                    section.emplace_back(m_queue.enqueue_no_lock([op, index](const size_t tnum) { op(index, tnum); }));
+                }
+            }
+"""),
+    dict(property="C17", name="task-run-under-lock", rule="R-C17-4", file="src/core/parallel.cpp",
+         old="""            task = std::move(m_queue.m_tasks.front());
+            m_queue.m_tasks.pop_front();
+        }
+
+        // execute the task
+        task(m_tnum);""", new="""            task = std::move(m_queue.m_tasks.front());
+            m_queue.m_tasks.pop_front();
+            task(m_tnum);
+        }"""),
+    dict(property="C17", name="map-drops-block", rule="R-C17-5", file="include/nano/core/parallel.h", tu="src/core/parallel.cpp",
+         old="""            m_queue.m_condition.notify_all();
+
+            section.block(raise);
+        }
+    }
+
+private:""", new="""            m_queue.m_condition.notify_all();
+            if (raise)
+            {
+                section.block(raise);
+            }
+        }
+    }
+
+private:"""),
+    dict(property="C17", name="chunk-end-not-clamped", rule="R-C17-6", file="include/nano/core/parallel.h", tu="src/core/parallel.cpp",
+         old="const auto end = std::min(begin + chunksize, elements);", new="const auto end = begin + chunksize;"),
+    dict(property="C17", name="task-captures-by-ref", rule="R-C17-6", file="include/nano/core/parallel.h", tu="src/core/parallel.cpp",
+         old="m_queue.enqueue_no_lock([op, index](const size_t tnum) { op(index, tnum); })", new="m_queue.enqueue_no_lock([&op, &index](const size_t tnum) { op(index, tnum); })"),
+    dict(property="C17", name="wait-without-predicate", rule="R-C17-3", file="src/core/parallel.cpp",
+         old="m_queue.m_condition.wait(lock, [&] { return m_queue.m_stop || !m_queue.m_tasks.empty(); });",
+         new="if (!m_queue.m_stop && m_queue.m_tasks.empty()) { m_queue.m_condition.wait(lock); }"),
+    dict(property="C17", name="predicate-ignores-stop", rule="R-C17-3", file="src/core/parallel.cpp",
+         old="[&] { return m_queue.m_stop || !m_queue.m_tasks.empty(); }", new="[&] { return !m_queue.m_tasks.empty(); }"),
+    dict(property="C17", name="section-dtor-does-not-wait", rule="R-C17-5", file="src/core/parallel.cpp",
+         old="""section_t::~section_t()
+{
+    block(false);
+}""", new="""section_t::~section_t()
+{
+}"""),
+    dict(property="C17", name="enqueue-push-outside-lock", rule="R-C17-1", file="include/nano/core/parallel.h", tu="src/core/parallel.cpp",
+         old="""        {
+            const std::scoped_lock lock(m_mutex);
+            m_tasks.emplace_back(std::move(task));
+        }
+        m_condition.notify_one();""", new="""        m_tasks.emplace_back(std::move(task));
+        {
+            const std::scoped_lock lock(m_mutex);
+        }
+        m_condition.notify_one();"""),
+    dict(property="C17", name="worker-ids-from-one", rule="R-C17-7", file="src/core/parallel.cpp",
+         old="m_workers.emplace_back(m_queue, tnum);", new="m_workers.emplace_back(m_queue, tnum + 1);"),
+    dict(property="C17", name="dtor-joins-skip-first", rule="R-C17-8", file="src/core/parallel.cpp",
+         old="""    for (auto& thread : m_threads)
+    {
+        thread.join();
+    }""", new="""    for (size_t i = 1; i < m_threads.size(); ++i)
+    {
+        m_threads[i].join();
+    }
+    m_threads[0].detach();"""),
+    dict(property="C17", name="block-waits-only-when-raising", rule="R-C17-5", file="src/core/parallel.cpp",
+         old="raise ? future.get() : future.wait();", new="if (raise) { future.get(); }"),]
 
 BENIGN = [
     dict(property="C07", name="lemarechal-swap-operands", file="src/lsearchk/lemarechal.cpp",
@@ -87,4 +166,18 @@ BENIGN = [
         }"""),
     dict(property="C07", name="armijo-predicate-reordered", file="src/solver/state.cpp",
          old="return m_fx <= origin.fx() + step_size * c1 * origin.dg(descent);", new="return origin.fx() + c1 * origin.dg(descent) * step_size >= m_fx;"),
+    dict(property="C17", name="notify-one-to-all", file="include/nano/core/parallel.h",
+         old="m_condition.notify_one();", new="m_condition.notify_all();"),
+    dict(property="C17", name="worker-extra-log-and-scope", file="src/core/parallel.cpp",
+         old="            task = std::move(m_queue.m_tasks.front());", new="            auto& tasks = m_queue.m_tasks; (void)tasks;\n            task = std::move(m_queue.m_tasks.front());"),
+    dict(property="C17", name="map-notify-under-lock", file="include/nano/core/parallel.h", tu="src/core/parallel.cpp",
+         old="""                    section.emplace_back(m_queue.enqueue_no_lock([op, index](const size_t tnum) { op(index, tnum); }));
+                }
+            }
+            m_queue.m_condition.notify_all();
+""", new="""                    section.emplace_back(m_queue.enqueue_no_lock([op, index](const size_t tnum) { op(index, tnum); }));
+                }
+                m_queue.m_condition.notify_all();
+            }
+"""),
 ]
